@@ -201,6 +201,22 @@ pub fn run_c04(tier: &str, sink: &Sink) -> DOut {
             sink.report("refl", format!("a={}", vtext_full(&u[i])), json!({"engine":"D","kind":"c04-pair","a":vjson(&u[i]),"b":vjson(&u[i])}), "cmp(a,a) != Equal".into(), "Equal".into());
         }
     });
+    // the same order must hold between the *parsed* forms of the universe texts (a parser that
+    // mis-denotes an identifier breaks precedence as observed by users)
+    let parsed: Vec<Option<Version>> = u.iter().map(|v| guarded(|| Version::parse(vtext_full(v))).ok().and_then(|r| r.ok())).collect();
+    let parsed_pairs = AtomicU64::new(0);
+    (0..n).into_par_iter().for_each(|i| {
+        let Some(a) = &parsed[i] else { return };
+        for j in 0..n {
+            let Some(b) = &parsed[j] else { continue };
+            parsed_pairs.fetch_add(1, AO::Relaxed);
+            let want = rcmp(&u[i], &u[j]);
+            let got = a.cmp(b);
+            if got != want || (a == b) != (want == Ordering::Equal) || (want == Ordering::Equal && h1(a) != h1(b)) {
+                sink.report("cmp-parsed", format!("a={}|b={}", vtext_full(&u[i]), vtext_full(&u[j])), json!({"engine":"D","kind":"c04-parsed","a":vtext_full(&u[i]),"b":vtext_full(&u[j])}), format!("cmp of the parsed texts = {:?}, == is {}", got, a == b), format!("{:?}", want));
+            }
+        }
+    });
     // transitivity + totality on all triples (implementation's own relation)
     let le: Vec<Vec<bool>> = (0..n).map(|i| (0..n).map(|j| u[i].cmp(&u[j]) != Ordering::Greater).collect()).collect();
     let cls: Vec<Vec<Ordering>> = (0..n).map(|i| (0..n).map(|j| rcmp(&u[i], &u[j])).collect()).collect();
@@ -252,7 +268,8 @@ pub fn run_c04(tier: &str, sink: &Sink) -> DOut {
     });
     let mut counters = BTreeMap::new();
     counters.insert("versions".into(), n as u64);
-    counters.insert("ordered_pairs".into(), pairs.load(AO::Relaxed));
+    counters.insert("ordered_pairs".into(), pairs.load(AO::Relaxed) + parsed_pairs.load(AO::Relaxed));
+    counters.insert("ordered_pairs_of_parsed_texts".into(), parsed_pairs.load(AO::Relaxed));
     counters.insert("triples".into(), triples.load(AO::Relaxed));
     counters.insert("triples_with_three_distinct_classes".into(), distinct3.load(AO::Relaxed));
     counters.insert("lists".into(), lists.load(AO::Relaxed));
@@ -755,6 +772,19 @@ pub fn run_c18(tier: &str, sink: &Sink) -> DOut {
 pub fn replay(prop: &str, case: &Value, sink: &Sink) {
     match (prop, case["kind"].as_str().unwrap_or("")) {
         ("C04", "c04-pair") => check_c04_pair(&vfrom(&case["a"]), &vfrom(&case["b"]), sink),
+        ("C04", "c04-parsed") => {
+            let (ta, tb) = (case["a"].as_str().unwrap_or(""), case["b"].as_str().unwrap_or(""));
+            // rebuild the reference values with the hand-written recogniser of engine B
+            if let (Some(da), Some(db), Ok(a), Ok(b)) = (crate::engine_b::recognise(ta), crate::engine_b::recognise(tb), Version::parse(ta), Version::parse(tb)) {
+                let ra = Version { major: da.major, minor: da.minor, patch: da.patch, pre_release: da.pre, build: da.build };
+                let rb = Version { major: db.major, minor: db.minor, patch: db.patch, pre_release: db.pre, build: db.build };
+                let want = rcmp(&ra, &rb);
+                let got = a.cmp(&b);
+                if got != want || (a == b) != (want == Ordering::Equal) || (want == Ordering::Equal && h1(&a) != h1(&b)) {
+                    sink.report("cmp-parsed", format!("a={}|b={}", ta, tb), case.clone(), format!("cmp of the parsed texts = {:?}, == is {}", got, a == b), format!("{:?}", want));
+                }
+            }
+        }
         ("C04", "c04-triple") => {
             let (a, b, c) = (vfrom(&case["a"]), vfrom(&case["b"]), vfrom(&case["c"]));
             if a <= b && b <= c && !(a <= c) {
